@@ -36,6 +36,10 @@ def run(ctx):
     e2_e3(ctx, fx, U)
     e4(ctx, fx, U)
     e5(ctx, fx, U)
+    # E6: the specification's algorithm visits every array and object of the payload and of every disclosed value: a container that is
+    # copied to the output without being walked escapes the duplicate-digest bookkeeping and every placeholder / arity check beneath it
+    # (more lenient than the specification). Rule shared with C03.V6 / C01.a.
+    c03.v6(common.RelabelCtx(ctx, "C08.E6"), fx, U, "C08.E6")
 
 
 class ProxyCtx:
